@@ -1,6 +1,14 @@
+-- root of the library: every model, lemma and property module
 import Teleport.Model.Bytes
 import Teleport.Model.Num
 import Teleport.Model.Args
 import Teleport.Model.Status
 import Teleport.Model.Xfer
 import Teleport.Model.RawProto
+import Teleport.Lemmas.Bytes
+import Teleport.Lemmas.Args
+import Teleport.Lemmas.Num
+import Teleport.Lemmas.Status
+import Teleport.Lemmas.Raw
+import Teleport.Props.C05
+import Teleport.Drv.C05
